@@ -18,7 +18,7 @@ MANIFEST = dict(
     design="5/C01")
 INVS = ["TypeOK", "LexicalLookup", "ScopeIdsFresh"]
 PROPS = ["Isolation", "Restored"]
-ACTIONS = ["Enter", "Leave"]
+ACTIONS = ["Enter", "Leave", "Try", "Raise"]
 
 
 def run(rep, work, tier, seed):
@@ -41,6 +41,13 @@ def run(rep, work, tier, seed):
                    cfg_text(dict(small, Bug="no_restore"), spec="Spec", invariants=INVS, properties=PROPS),
                    ["LexicalLookup", "Restored"])
     leg_r(rep, work, SPEC, f"conf_{tier}", cfg_text(conf, invariants=INVS), lambda: ScopesDriver(types))
+    # state yielded by SEVERAL disposables of one scope (later declared wins, whatever the order in which they finished
+    # entering): ScopeLife.tla's DisposableStateVisible, replayed here on two and three disposables
+    from props.scopelife_common import ScopeLifeDriver
+    for nd in (2, 3):
+        life = dict(ND=nd, NC=0, Behaviours=["ok", "susp"], Bug="none")
+        leg_r(rep, work, "ScopeLife", f"life_d{nd}_{tier}", cfg_text(life, invariants=["TypeOK", "DisposableStateVisible"]),
+              ScopeLifeDriver)
     # leg T: random programs beyond the exhaustive bound (depth 6, ~28 operations, 1 task(s)) validated by a trace
     # module generated from Scopes.tla
     rnd = random.Random(seed * 13 + 1)
@@ -59,6 +66,9 @@ def run(rep, work, tier, seed):
 
 def replay(rep, record):
     from harness.graph import parse_label
+    if record.get("spec") == "ScopeLife":
+        from props.scopelife_common import replay as r
+        return r(rep, record)
     d = ScopesDriver(tuple(record["init"]["st"][0].keys()) if isinstance(record["init"]["st"], (list, tuple)) else ("A", "B"))
     d.reset(record["init"])
     try:
